@@ -189,4 +189,73 @@ def run(rd, emit, log, enum_values, ti_default):
     if bg is None:
         log.append('C18: binding loop of EvaluateFilter not recognised (compared only)')
     body += 'Definition f_pm_bind_guard : option bool := %s.\n' % ('None' if bg is None else ('Some true' if bg else 'Some false'))
+    # ---- the permission frame's namespace is private to EvaluateFilter: in GetFilterTargets it is only ever a
+    # `new Namespace()`, the request's filter_vars are Set into the namespace of the USER's frame, and
+    # FilteredAddTarget evaluates each filter through EvaluateFilter on its own frame
+    pn = None
+    m = re.search(r'FilterUtility::GetFilterTargets\s*\(', fu)
+    if m:
+        i = fu.find('{', m.end())
+        depth, k = 1, i + 1
+        while k < len(fu) and depth:
+            if fu[k] == '{': depth += 1
+            elif fu[k] == '}': depth -= 1
+            k += 1
+        gb = fu[i + 1:k - 1]
+        decl = re.search(r'Namespace::Ptr\s+(\w+)\s*=\s*new\s+Namespace\s*\(\s*\)\s*;\s*ScriptFrame\s+permissionFrame\s*\(\s*false\s*,\s*(\w+)\s*\)\s*;', gb)
+        decl2 = re.search(r'ScriptFrame\s+permissionFrame\s*\(\s*false\s*,\s*new\s+Namespace\s*\(\s*\)\s*\)\s*;', gb)
+        assigns = re.findall(r'permissionFrame\s*\.\s*Self\s*=\s*([^;]*);', gb)
+        udecl = re.search(r'Namespace::Ptr\s+(\w+)\s*=\s*new\s+Namespace\s*\(\s*\)\s*;\s*ScriptFrame\s+frame\s*\(\s*false\s*,\s*(\w+)\s*\)\s*;', gb)
+        fvset = re.findall(r'(\w+)\s*->\s*Set\s*\(\s*kv\.first\s*,\s*kv\.second\s*\)', gb)
+        fa = re.search(r'static\s+void\s+FilteredAddTarget\s*\([^)]*\)\s*\{(.*?)\n\}', fu, flags=re.S)
+        if (decl or decl2) and udecl and fvset and fa:
+            pns = decl.group(1) if decl else None
+            good = (decl is None or decl.group(1) == decl.group(2))
+            good = good and udecl.group(1) == udecl.group(2)
+            good = good and all(re.sub(r'\s+', '', a) == 'newNamespace()' for a in assigns)
+            good = good and all(x == udecl.group(1) for x in fvset)
+            if pns:
+                # the declared permission namespace is used for nothing but the frame's construction
+                good = good and len(re.findall(r'\b' + re.escape(pns) + r'\b', gb)) == 2 and pns != udecl.group(1)
+            fab = re.sub(r'\s+', ' ', fa.group(1))
+            good = good and bool(re.search(r'EvaluateFilter\(permissionFrame, permissionFilter, target, variableName\)', fab))
+            good = good and bool(re.search(r'EvaluateFilter\(frame, ufilter, target, variableName\)', fab))
+            good = good and len(re.findall(r'->\s*Evaluate\s*\(', fab)) == 0
+            # nothing but EvaluateFilter writes into a frame's namespace from here
+            good = good and not re.search(r'permissionFrame\s*\.\s*Self\s*\.|permissionFrame\s*\.\s*Locals\s*=', gb)
+            pn = good
+    if pn is None:
+        log.append('C18: privacy of the permission frame namespace in GetFilterTargets not recognised (compared only)')
+    body += 'Definition f_pm_perm_ns_private : option bool := %s.\n' % ('None' if pn is None else ('Some true' if pn else 'Some false'))
+    # ---- key types of the two per-request caches of the joins loop, the expressions used as keys, the container of joinAttrs
+    ck, tk, ja = None, None, None
+    if b:
+        m = re.search(r'std::unordered_map\s*<\s*([^,<>]+?)\s*,\s*bool\s*>\s*objectAccessAllowed\s*;', b)
+        if m:
+            keyt = re.sub(r'\s+', '', m.group(1))
+            finds = re.findall(r'objectAccessAllowed\s*\.\s*find\s*\(\s*([^)]*?\)?)\s*\)\s*;', b)
+            ins = re.findall(r'objectAccessAllowed\s*\.\s*insert\s*\(\s*\{\s*([^,]*?)\s*,', b)
+            uses = [re.sub(r'\s+', '', x) for x in finds + ins]
+            if uses and all(x == 'joinedObj.get()' for x in uses):
+                ck = keyt
+            elif uses:
+                ck = keyt + ' keyed by ' + '/'.join(sorted(set(uses)))
+        m = re.search(r'std::unordered_map\s*<\s*([^,<>]+?)\s*,\s*std::pair\s*<\s*bool\s*,[^;]*>\s*typePermissions\s*;', b)
+        if m:
+            keyt = re.sub(r'\s+', '', m.group(1))
+            finds = re.findall(r'typePermissions\s*\.\s*find\s*\(\s*([^;]*?)\s*\)\s*;', b)
+            ins = re.findall(r'typePermissions\s*\.\s*insert\s*\(\s*\{\s*([^,]*?)\s*,', b)
+            uses = [re.sub(r'\s+', '', x) for x in finds + ins]
+            if uses and all(x == 'reflectionType.get()' for x in uses):
+                tk = keyt
+            elif uses:
+                tk = keyt + ' keyed by ' + '/'.join(sorted(set(uses)))
+        m = re.search(r'(std::\w+\s*<\s*String\s*>)\s+joinAttrs\s*;', b)
+        if m:
+            ja = re.sub(r'\s+', '', m.group(1))
+    for nm, val, what in (('f_pm_join_cache_key', ck, 'key of objectAccessAllowed'), ('f_pm_join_type_cache_key', tk, 'key of typePermissions'),
+                          ('f_pm_join_attrs_container', ja, 'container of joinAttrs')):
+        if val is None:
+            log.append('C18: %s not recognised (compared only)' % what)
+        body += 'Definition %s : option string := %s.\n' % (nm, 'None' if val is None else 'Some "%s"%%string' % val.replace('"', ''))
     emit('Facts_c18.v', body)
